@@ -2,7 +2,7 @@
    ever delivered.  This file only states the theorems and closes them with the
    lemmas of C03_proofs.v; see DESIGN.md section 5 (C03). *)
 From TV.Lib Require Import Base.
-From TV.Link Require Import Model Facts Topo_proofs C03_proofs C08_proofs C14_proofs C03_flow.
+From TV.Link Require Import Gen Model Facts Topo_proofs C03_proofs C08_proofs C14_proofs C03_flow.
 Open Scope N_scope.
 
 (* A message sent while its direction is explicitly partitioned is in no
@@ -84,6 +84,28 @@ Theorem c03_flows_again : forall d g es1 id x p es2,
   In id (seq_d d (outs r) (fin r)).
 Proof. exact c03_flows_again_lemma. Qed.
 
+(* Structural tie to the source (Gen.v is re-read from top.rs on every run): the
+   Rust enums `State` and `DeliveryStatus` have exactly the variants the model's
+   inductives `lstate` and `status` have, in the same order.  A new or renamed
+   variant in the code makes this fail to check. *)
+Definition ascii_codes (s : list N) := s.
+Example c03_model_matches_enums :
+  link_state_variants =
+    [ [72;101;97;108;116;104;121];                                              (* Healthy  -> Healthy  *)
+      [69;120;112;108;105;99;105;116;80;97;114;116;105;116;105;111;110];        (* ExplicitPartition -> Explicit *)
+      [82;97;110;100;80;97;114;116;105;116;105;111;110];                        (* RandPartition -> Rand *)
+      [72;111;108;100] ] /\                                                      (* Hold -> Held *)
+  delivery_status_variants =
+    [ [68;101;108;105;118;101;114;65;102;116;101;114];                          (* DeliverAfter -> After *)
+      [72;111;108;100] ] /\                                                      (* Hold -> OnHold *)
+  (forall s : lstate, In s [Healthy; Explicit; Rand; Held]) /\
+  (forall s : status, (exists t, s = After t) \/ s = OnHold).
+Proof.
+  split; [reflexivity|]. split; [reflexivity|]. split.
+  - intros []; cbn; auto.
+  - intros [t|]; eauto.
+Qed.
+
 (* Non-vacuity: the hypotheses are met by a real history, and the same history
    without the partition does deliver the message. *)
 Definition g0 := {| lmin := 0; lmax := 100 * ms |}.
@@ -109,4 +131,5 @@ Print Assumptions c03_reverse_untouched.
 Print Assumptions c03_other_links_untouched.
 Print Assumptions c03_topology_refines_link.
 Print Assumptions c03_flows_again.
+Print Assumptions c03_model_matches_enums.
 Print Assumptions c03_nonvacuous.
